@@ -288,6 +288,21 @@ fn dr7(r: &mut Rep) {
             r.viol("C19|Dr7Value::from_bits_truncate|wrong", &format!("dr7bits {:#x}", v), "");
         }
     }
+    // Dr7Flags -> Dr7Value conversion: only valid encodings come out, whatever bits the flags value retains
+    // (Dr7Flags::from_bits_retain(Dr7::read_raw()) carries the always-one bit 10)
+    let mut xs: Vec<u64> = vec![0, u64::MAX, valid, !valid, 0x400, 0xffff_ffff_0000_0000, 0x0000_0000_ffff_ffff];
+    for b in 0..64 {
+        xs.push(1u64 << b);
+        xs.push(!(1u64 << b));
+        xs.push(flagbits | 1u64 << b);
+    }
+    for x in xs {
+        r.ev(x & !valid != 0);
+        let v = Dr7Value::from(Dr7Flags::from_bits_retain(x));
+        if v.bits() != x & valid || Dr7Value::from_bits(v.bits()).map(|w| w.bits()) != Some(v.bits()) {
+            r.viol("C19|Dr7Value::from(Dr7Flags)|yields-an-encoding-that-from_bits-rejects-or-drops-valid-bits", &format!("dr7from {:#x}", x), &format!("{:#x}", v.bits()));
+        }
+    }
     let conds = [BreakpointCondition::InstructionExecution, BreakpointCondition::DataWrites, BreakpointCondition::IoReadsWrites, BreakpointCondition::DataReadsWrites];
     let sizes = [BreakpointSize::Length1B, BreakpointSize::Length2B, BreakpointSize::Length8B, BreakpointSize::Length4B];
     // 2^12 flag lattice positions: the 12 defined flag bits
